@@ -83,6 +83,16 @@ pub enum CertificateResolverError {
     ParsePem(CertificateError),
     #[error("error parsing overriding names in new certificate: {0}")]
     ParseOverridingNames(CertificateError),
+    #[error("invalid domain name '{0}' in certificate names")]
+    InvalidDomainName(String),
+}
+
+/// A certificate name must be indexable by the `domains` trie: non-empty
+/// labels separated by dots (a trailing root dot is tolerated), without the
+/// `/` that the trie reserves for regex segments.
+fn is_valid_domain_name(name: &str) -> bool {
+    let name = name.strip_suffix('.').unwrap_or(name);
+    !name.contains('/') && name.split('.').all(|label| !label.is_empty())
 }
 
 /// A wrapper around the Rustls
@@ -115,6 +125,13 @@ impl TryFrom<&AddCertificate> for CertifiedKeyWrapper {
         } else {
             add.certificate.names.clone()
         };
+
+        if let Some(name) = overriding_names
+            .iter()
+            .find(|name| !is_valid_domain_name(name))
+        {
+            return Err(CertificateResolverError::InvalidDomainName(name.to_owned()));
+        }
 
         let expiration = add
             .expired_at
